@@ -1,4 +1,4 @@
-import FpgoVerif.Proofs.C04Step
+import FpgoVerif.Proofs.C04SSet
 import FpgoVerif.Gen.StreamEffects
 /-! Property theorems for C04 — Stream / Set / StreamSet are persistent.
 
@@ -137,37 +137,6 @@ theorem C04_ifaceRemove_frame (w : World) (p : Nat) (i : Int) :
         simp [setStrHdr, allocArr, strHdr, List.getD_eq_getElem?_getD, Ne.symm hq]
   · exact ⟨fun _ _ _ => rfl, fun _ _ => rfl, rfl, rfl⟩
 
-/-- interface{} `Remove(i)` leaves the receiver — which IS the returned stream
-    (`C04_ifaceRemove_returns_receiver`) — holding the sequence without its `i`-th element (any other index,
-    negative ones included: unchanged).  `_partial`: stated under the explicit hypotheses that the receiver's
-    header lies within its live backing array and `len ≤ cap` (true of every header the modelled operations
-    build, but not part of `Wf`). -/
-theorem C04_ifaceRemove_content_partial (w : World) (p : Nat) (i : Int)
-    (hp : p < w.strs.length) (ha : (w.strHdr p).arr < w.arrs.length)
-    (hb : (w.strHdr p).off + (w.strHdr p).len ≤ (w.arrAt (w.strHdr p).arr).length)
-    (hc : (w.strHdr p).len ≤ (w.strHdr p).cap) :
-    (w.strRemoveI p i).1.strContent p = Spec.removeAt (w.strContent p) i := by
-  have hcl : (w.strContent p).length = (w.strHdr p).len := by
-    simp [strContent, sliceContent, List.length_take, List.length_drop]; omega
-  unfold strRemoveI Spec.removeAt
-  simp only [hcl]
-  split
-  · rename_i hr
-    have hi : i.toNat < (w.strHdr p).len := by omega
-    have htl : ((w.sliceContent (w.strHdr p)).drop (i.toNat + 1)).length = (w.strHdr p).len - (i.toNat + 1) := by
-      have := hcl; simp only [strContent] at this; simp [this]
-    have hfit : i.toNat + ((w.sliceContent (w.strHdr p)).drop (i.toNat + 1)).length ≤ (w.strHdr p).cap := by omega
-    simp only [appendSlice, hfit, if_true]
-    have := shift_list (w.arrAt (w.strHdr p).arr) (w.strHdr p).off (w.strHdr p).len i.toNat hi hb
-    simp only at this
-    simp only [strContent, sliceContent, strHdr, setStrHdr, writeArr, arrAt, List.getD_eq_getElem?_getD,
-      List.getElem?_set, hp, if_true, Option.getD_some] at this ⊢
-    have ha' := ha
-    simp only [strHdr, List.getD_eq_getElem?_getD] at ha'
-    rw [if_pos ha']
-    exact this
-  · rfl
-
 /-! ### network/simpleHTTP.go: the interceptor list is used persistently -/
 
 /-- `AddInterceptor` / `RemoveInterceptor` / `ClearInterceptor` on instance `p` (for any interceptor list) leave
@@ -190,6 +159,187 @@ theorem C04_http_instances_independent {w : World} (hw : Wf w) {p : Nat} (hp : p
   unfold strContent
   rw [f.strs q hq hne]
   simp [sliceContent, harr _ (strHdr_arr_lt hw q)]
+
+/-! ### Set operations: the map the result holds, and what that map means key by key -/
+
+/-- For every Set operation the map held by the RESULT handle is the `Spec` map function of the maps held by the
+    receiver and the argument (`argMap`: a nil argument has no entries).  The statements are uniform over the
+    "returns the receiver itself" cases (no items / nil or empty argument), where the function is the identity. -/
+theorem C04_set_results (w : World) (p : Nat) :
+    ((w.setClone p).1.setMap (w.setClone p).2 = w.setMap p) ∧
+    (∀ f, (w.setMapKey p f).1.setMap (w.setMapKey p f).2 = Spec.mapKeys f (w.setMap p)) ∧
+    (∀ f, (w.setMapVal p f).1.setMap (w.setMapVal p f).2 = Spec.mapVals f (w.setMap p)) ∧
+    (∀ zero items, (w.setAdd p zero items).1.setMap (w.setAdd p zero items).2
+        = items.foldl (fun m k => Spec.insertIfAbsent k zero m) (w.setMap p)) ∧
+    (∀ items, (w.setRemoveKeys p items).1.setMap (w.setRemoveKeys p items).2 = Spec.removeKeys (w.setMap p) items) ∧
+    (∀ vals, (w.setRemoveValues p vals).1.setMap (w.setRemoveValues p vals).2
+        = (w.setMap p).filter (fun kv => !vals.contains kv.2)) ∧
+    (∀ q, (w.setUnion p q).1.setMap (w.setUnion p q).2 = Spec.merge (w.setMap p) (argMap w q)) ∧
+    (∀ q, (w.setInter p q).1.setMap (w.setInter p q).2 = Spec.interByKey (w.setMap p) (argMap w q)) ∧
+    (∀ q, (w.setMinus p q).1.setMap (w.setMinus p q).2 = Spec.minusByKey (w.setMap p) (argMap w q)) := by
+  refine ⟨setMap_newSet _ _, fun _ => setMap_newSet _ _, fun _ => setMap_newSet _ _, ?_, ?_, ?_, ?_, ?_, ?_⟩
+  · intro zero items
+    unfold setAdd; split
+    · rename_i h; rw [isEmpty_eq_nil h]; rfl
+    · exact setMap_newSet _ _
+  · intro items
+    unfold setRemoveKeys; split
+    · rename_i h; rw [isEmpty_eq_nil h]; simp [Spec.removeKeys, filter_const_true]
+    · exact setMap_newSet _ _
+  · intro vals
+    unfold setRemoveValues; split
+    · rename_i h; rw [isEmpty_eq_nil h]; simp [filter_const_true]
+    · exact setMap_newSet _ _
+  · intro q
+    cases q with
+    | none => rfl
+    | some q =>
+      simp only [setUnion, argMap]; split
+      · rename_i h; rw [isEmpty_eq_nil h]; rfl
+      · exact setMap_newSet _ _
+  · intro q
+    cases q with
+    | none => simp [setInter, argMap, setMap_newNilSet, Spec.interByKey, Spec.hasKey, Spec.lookup]
+    | some q =>
+      simp only [setInter, argMap]; split
+      · rename_i h; rw [isEmpty_eq_nil h]
+        simp [setMap_newNilSet, Spec.interByKey, Spec.hasKey, Spec.lookup]
+      · exact setMap_newSet _ _
+  · intro q
+    cases q with
+    | none => simp [setMinus, argMap, Spec.minusByKey, Spec.hasKey, Spec.lookup, filter_const_true]
+    | some q =>
+      simp only [setMinus, argMap]; split
+      · rename_i h; rw [isEmpty_eq_nil h]; simp [Spec.minusByKey, Spec.hasKey, Spec.lookup, filter_const_true]
+      · exact setMap_newSet _ _
+
+/-- Key/value meaning of those map functions (`Spec.lookup k m` = the value stored under `k`, if any):
+    * `Set`/assignment: the assigned key reads the new value, every other key is unchanged;
+    * `Add`: present keys keep their value, missing items get the zero value, nothing else appears;
+    * `Union` (`Merge`): the ARGUMENT's value wins on common keys (its last assignment, `reverse`), other keys of
+      either side are kept;
+    * `RemoveKeys` / `Intersection` / `Minus`: exactly the receiver's entries whose key is not listed / is / is not
+      a key of the argument, with the receiver's values;
+    * `MapValue`: same keys, transformed values;
+    * `RemoveValues`: exactly the receiver's entries whose value is not listed. -/
+theorem C04_map_laws {β : Type} [BEq β] (k : Int) (m m₂ : List (Int × β)) :
+    (∀ k' v, Spec.lookup k (Spec.insert k' v m) = if k' = k then some v else Spec.lookup k m) ∧
+    (∀ (zero : β) (items : List Int), Spec.lookup k (items.foldl (fun m k => Spec.insertIfAbsent k zero m) m)
+        = match Spec.lookup k m with
+          | some x => some x
+          | none => if items.contains k then some zero else none) ∧
+    (Spec.lookup k (Spec.merge m m₂) = match Spec.lookup k m₂.reverse with
+          | some v => some v
+          | none => Spec.lookup k m) ∧
+    (∀ ks, Spec.lookup k (Spec.removeKeys m ks) = if ks.contains k then none else Spec.lookup k m) ∧
+    (Spec.lookup k (Spec.interByKey m m₂) = if Spec.hasKey k m₂ then Spec.lookup k m else none) ∧
+    (Spec.lookup k (Spec.minusByKey m m₂) = if Spec.hasKey k m₂ then none else Spec.lookup k m) ∧
+    (∀ f, Spec.lookup k (Spec.mapVals f m) = (Spec.lookup k m).map f) ∧
+    (∀ (vals : List β) kv, kv ∈ m.filter (fun kv => !vals.contains kv.2) ↔ kv ∈ m ∧ vals.contains kv.2 = false) :=
+  ⟨fun k' v => Spec.lookup_insert k k' v m, fun zero items => Spec.lookup_add k zero items m,
+   Spec.lookup_merge k m m₂, Spec.lookup_removeKeys k m, Spec.lookup_interByKey k m m₂,
+   Spec.lookup_minusByKey k m m₂, fun f => Spec.lookup_mapVals k f m,
+   fun vals kv => by simp [List.mem_filter]⟩
+
+/-! ### Sort / SortByIndex -/
+
+/-- `Sort(cmp)` and `SortByIndex(cmp)` return a stream holding `Spec.sortBy cmp` of the receiver's elements
+    (for `SortByIndex` the comparator reads the live receiver, which is sorted in place and then restored:
+    `C04_step_persistent`). -/
+theorem C04_sort_content {w : World} (hw : Wf w) {p : Nat} (hp : p < w.strs.length) (less : Int → Int → Bool) :
+    (w.strSort p less).1.strContent (w.strSort p less).2 = Spec.sortBy less (w.strContent p) ∧
+    (w.strSortByIndex p less).1.strContent (w.strSortByIndex p less).2 = Spec.sortBy less (w.strContent p) :=
+  ⟨strSort_content w p less, strSortByIndex_content hw hp less⟩
+
+/-- what `Spec.sortBy` is, for a strict weak order (every comparator of the harness family is one): a permutation
+    of the input, ordered by the comparator, and STABLE — elements the comparator does not distinguish keep their
+    input order.  These three determine the result uniquely (`C19.stable_sorted_unique`). -/
+theorem C04_sortBy_spec {less : Int → Int → Bool} (h : C19.StrictWeak less) (l : List Int) :
+    (Spec.sortBy less l).Perm l ∧ (Spec.sortBy less l).Pairwise (fun a b => less b a = false) ∧
+    ∀ x, (Spec.sortBy less l).filter (C19.equivBy less x) = l.filter (C19.equivBy less x) :=
+  ⟨C19.sortBy_perm less l, C19.sortBy_pairwise h l, C19.sortBy_filter_equiv h l⟩
+
+theorem C04_comparators_strictWeak (k : Nat) : C19.StrictWeak (Spec.lessFn k) := lessFn_strictWeak k
+
+/-- `MapKey(f)`: when the transformed keys are pairwise distinct — in particular for the (injective) key functions
+    of the harness family on a map with distinct keys — every entry keeps its value under the transformed key.
+    (With colliding keys the Go result depends on the map iteration order; no definition prescribes it.) -/
+theorem C04_mapKey_law {β : Type} (m : List (Int × β)) :
+    (∀ f : Int → Int, (m.map (fun kv => f kv.1)).Nodup → Spec.mapKeys f m = m.map (fun kv => (f kv.1, kv.2))) ∧
+    (∀ k, (m.map (·.1)).Nodup → Spec.mapKeys (Spec.keyFn k) m = m.map (fun kv => (Spec.keyFn k kv.1, kv.2))) := by
+  refine ⟨fun f h => Spec.mapKeys_of_nodup f m h, fun k h => Spec.mapKeys_of_nodup _ m ?_⟩
+  have : m.map (fun kv => Spec.keyFn k kv.1) = (m.map (·.1)).map (Spec.keyFn k) := by simp
+  rw [this]
+  simp only [List.Nodup, List.pairwise_map] at h ⊢
+  exact h.imp (fun hne e => hne (Spec.keyFn_injective k e))
+
+example : ([(1, 5), (2, 0)] : List (Int × Int)).map (·.1) |>.Nodup := by decide
+
+/-- `Keys()` / `Values()` return a NEW array (index = old heap size, so no existing collection can see a write
+    through it) holding the keys / values -/
+theorem C04_keys_values_detached (w : World) (p : Nat) :
+    ((w.setKeys p).2.arr = w.arrs.length ∧
+      (w.setKeys p).1.sliceContent (w.setKeys p).2 = Spec.sortInts ((w.setMap p).map (·.1))) ∧
+    ((w.setValues p).2.arr = w.arrs.length ∧
+      (w.setValues p).1.sliceContent (w.setValues p).2 = Spec.sortInts ((w.setMap p).map (fun kv => valInt kv.2))) :=
+  ⟨⟨rfl, sliceContent_allocArr_new _ _⟩, ⟨rfl, sliceContent_allocArr_new _ _⟩⟩
+
+/-! ### StreamSet operations: from maps of stream pointers to maps of element sequences -/
+
+/-- the printed/compared contents of a set-like handle are its entries — every stream pointer replaced by the
+    sequence it denotes — sorted by key -/
+theorem C04_content_is_sorted_entries (w : World) (p : Nat) :
+    setContent w p = Spec.sortByKey (entriesOf w (w.setMap p)) := rfl
+
+/-- StreamSet `Clone`, `Intersection`, `MinusStreams`, `Union`, `StreamSetFromMap`: the entries of the RESULT (keys
+    with the element sequences of their streams) are the prescribed function of the entries of the operands:
+    * `Clone`: the same entries (through freshly cloned streams);
+    * `Intersection`: the receiver's entries whose key the argument has; where the argument's stream is non-empty
+      the stream becomes `Spec.inter` of the two (a nil receiver stream counts as empty);
+    * `MinusStreams`: all the receiver's entries; where the argument's stream under the same key is non-empty the
+      stream becomes `Spec.minus` of the two;
+    * `Union`: `Merge` (the argument wins) except that a key of BOTH sides whose argument stream is non-empty holds
+      the receiver's stream extended by the argument's (`unionC`);
+    and an empty argument gives ∅ / ∅ / the receiver. -/
+theorem C04_streamset_results {w : World} (hw : Wf w) {p : Nat} (hp : p < w.sets.length) (q : Nat) :
+    let e₁ := entriesOf w (w.setMap p)
+    let e₂ := entriesOf w (w.setMap q)
+    (entriesOf (w.ssClone p).1 ((w.ssClone p).1.setMap (w.ssClone p).2) = e₁) ∧
+    (entriesOf (w.ssInter p (some q)).1 ((w.ssInter p (some q)).1.setMap (w.ssInter p (some q)).2)
+      = if e₂.isEmpty then [] else (Spec.interByKey e₁ e₂).map (fun kv => (kv.1, combineC Spec.inter e₂ kv.1 kv.2))) ∧
+    (entriesOf (w.ssMinusStreams p (some q)).1
+        ((w.ssMinusStreams p (some q)).1.setMap (w.ssMinusStreams p (some q)).2)
+      = if e₂.isEmpty then [] else e₁.map (fun kv => (kv.1, combineC Spec.minus e₂ kv.1 kv.2))) ∧
+    (entriesOf (w.ssUnion p (some q)).1 ((w.ssUnion p (some q)).1.setMap (w.ssUnion p (some q)).2)
+      = if e₂.isEmpty then e₁ else unionC e₁ e₂) ∧
+    (∀ m, mapOk w m → entriesOf (w.ssFromMap m).1 ((w.ssFromMap m).1.setMap (w.ssFromMap m).2) = entriesOf w m) :=
+  ⟨ssClone_entries hw p, ssInter_entries hw p q, ssMinusStreams_entries hw p q, ssUnion_entries hw hp q,
+   fun _ hm => setMap_newSet_entries hw hm⟩
+
+/-- nil arguments: `Union(nil)` is the receiver itself, `Intersection(nil)` and `MinusStreams(nil)` are empty -/
+theorem C04_streamset_nil_arg (w : World) (p : Nat) :
+    w.ssUnion p none = (w, p) ∧
+    (w.ssInter p none).1.setMap (w.ssInter p none).2 = [] ∧
+    (w.ssMinusStreams p none).1.setMap (w.ssMinusStreams p none).2 = [] :=
+  ⟨rfl, setMap_newSet _ _, setMap_newSet _ _⟩
+
+/-! ### every Stream transformer at once -/
+
+/-- For EVERY unary Stream transformer of the alphabet (`Map`, `Filter`, `Reject`, `FilterNotNil`, `Distinct`,
+    `Clone`, `Reverse`, `Sort`, `SortByIndex`, `RemoveItem`, `Append`, `Remove` — both families, i.e. including the
+    interface{} in-place `Remove`), as dispatched by the driver (`execS1`): the returned handle holds
+    `specS1` of the receiver's elements. -/
+theorem C04_unary_stream_content (iface : Bool) {w : World} (hw : Wf w) {p : Nat} (hp : p < w.strs.length) (k : S1) :
+    (execS1 iface w p k).1.strContent (execS1 iface w p k).2 = specS1 iface k (w.strContent p) :=
+  execS1_content iface hw hp k
+
+/-- `Intersection(arg)` / `Minus(arg)` for any argument (nil, empty or not), on ELEMENTS (no header conditions):
+    `Intersection` of an empty argument is empty, `Minus` of an empty argument is the receiver's sequence. -/
+theorem C04_binary_stream_content {w : World} (hw : Wf w) (p : Nat) (q : Option Nat) :
+    ((w.strInter p q).1.strContent (w.strInter p q).2
+      = if (argContent w q).isEmpty then [] else Spec.inter (w.strContent p) (argContent w q)) ∧
+    ((w.strMinus p q).1.strContent (w.strMinus p q).2 = Spec.minus (w.strContent p) (argContent w q)) :=
+  ⟨strInter_content hw p q, strMinus_content hw p q⟩
 
 /-! ### results: the elements the sequence definition prescribes -/
 
@@ -260,13 +410,43 @@ theorem C04_clone_detached (w : World) (p : Nat) :
     show (((w.strClone p).1.arrAt w.arrs.length).drop 0).take (w.sliceContent (w.strHdr p)).length = _
     rw [h]; simp
 
-/-- `Len` agrees with the element sequence whenever the header lies within its backing array (which every
-    header built by the modelled operations does); `Get(i)` and `Contains(x)` are evaluated on the element
-    sequence by definition of `exec`. -/
-theorem C04_len_agrees_partial (w : World) (p : Nat)
-    (hb : (w.strHdr p).off + (w.strHdr p).len ≤ (w.arrAt (w.strHdr p).arr).length) :
-    (w.strContent p).length = (w.strHdr p).len := by
-  simp [strContent, sliceContent, List.length_take, List.length_drop]; omega
+/-- `Len` agrees with the element sequence in every well-formed world (hence in every reachable state:
+    `C04_reachable_inv`); `Get(i)` and `Contains(x)` are evaluated on the element sequence by definition of `exec`. -/
+theorem C04_len_agrees {w : World} (hw : Wf w) (p : Nat) : (w.strContent p).length = (w.strHdr p).len := by
+  have h := strHdr_ok hw p
+  simp [strContent, sliceContent, List.length_take, List.length_drop]
+  have := h.2.1; have := h.2.2; omega
+
+/-- every slice header of a reachable state lies inside its live backing array and has `len ≤ cap` -/
+theorem C04_headers_in_bounds (iface : Bool) (pre : List Op) (p : Nat) :
+    sliceOk (run iface State.init pre).w ((run iface State.init pre).w.strHdr p) :=
+  strHdr_ok (C04_reachable_inv iface pre Inv.init).wf p
+
+/-- interface{} `Remove(i)` leaves the receiver — which IS the returned stream — holding the sequence without
+    its `i`-th element (any other index, negative ones included: unchanged), in every well-formed world. -/
+theorem C04_ifaceRemove_content {w : World} (hw : Wf w) {p : Nat} (hp : p < w.strs.length) (i : Int) :
+    (w.strRemoveI p i).1.strContent p = Spec.removeAt (w.strContent p) i := by
+  have h := strHdr_ok hw p
+  exact ifaceRemove_content_of_bounds w p i hp h.1 (by have := h.2.1; have := h.2.2; omega) h.2.2
+
+/-- `Append(items...)`: a new stream holding the receiver's elements followed by the items -/
+theorem C04_append_content {w : World} (hw : Wf w) {p : Nat} (hp : p < w.strs.length) (items : List Int) :
+    (w.strAppend p items).1.strContent (w.strAppend p items).2 = w.strContent p ++ items :=
+  strAppend_content hw hp items
+
+/-- `Concat(slices...)`: the receiver's elements followed by the elements of every slice, in order (the
+    receiver itself when called without slices) -/
+theorem C04_concat_content {w : World} (hw : Wf w) (p : Nat) (slices : List Slice)
+    (hs : ∀ s ∈ slices, s.arr < w.arrs.length) :
+    (w.strConcat p slices).1.strContent (w.strConcat p slices).2
+      = slices.foldl (fun acc s => acc ++ w.sliceContent s) (w.strContent p) :=
+  strConcat_content hw p slices hs
+
+/-- `Extend(streams...)`: the receiver's elements followed by the elements of every non-nil stream, in order -/
+theorem C04_extend_content (w : World) (p : Nat) (args : List (Option Nat)) :
+    (w.strExtend p args).1.strContent (w.strExtend p args).2
+      = args.foldl (fun acc a => match a with | none => acc | some q => acc ++ w.strContent q) (w.strContent p) :=
+  strExtend_content w p args
 
 /-! ### the regenerated destructive-effect table (`extract/c04.go` → `Gen/StreamEffects.lean`) -/
 
@@ -316,13 +496,6 @@ example : Inv (run false State.init demoOps) := C04_reachable_inv false demoOps 
 example : content (run false State.init (demoOps ++ [.s1 "s3" "s0" .reverse])).w (.str (some 0)) = .str [1, 2, 1] := by
   decide
 example : (Op.s1 "s3" "s0" .reverse).isMutator true = false := rfl
-/-- the hypothesis of `C04_len_agrees_partial` holds e.g. for `s0` above -/
-example : ((run false State.init demoOps).w.strHdr 0).off + ((run false State.init demoOps).w.strHdr 0).len
-    ≤ ((run false State.init demoOps).w.arrAt ((run false State.init demoOps).w.strHdr 0).arr).length := by decide
-/-- the hypotheses of `C04_ifaceRemove_content_partial` hold e.g. for `s0` of the demo state -/
-example : let w := (run true State.init demoOps).w
-    0 < w.strs.length ∧ (w.strHdr 0).arr < w.arrs.length ∧
-    (w.strHdr 0).off + (w.strHdr 0).len ≤ (w.arrAt (w.strHdr 0).arr).length ∧ (w.strHdr 0).len ≤ (w.strHdr 0).cap := by decide
 /-- the interface{} `Remove` really is a mutator in the model: `[1,2,3].Remove(0)` rewrites the receiver's
     storage (`a0` becomes `[2,3,3]`) — which is why it is excluded from `C04_step_persistent`. -/
 example : content (run true State.init [.arr "a0" 3 [1, 2, 3], .sfrom "s0" "a0", .s1 "s1" "s0" (.remove 0)]).w
